@@ -1110,6 +1110,7 @@ fn gen_perfect_line(rng: &mut Rng) -> String {
     let tbl = to_bits_list(&v, is32);
     let f = if is32 { "f32" } else { "f64" };
     // the generator observes the implementation's output; the model only checks its contract
+    if std::env::var("QUANT_DEBUG").is_ok() { eprintln!("perfect {} {:x} {:x} {}", f, b, p, show_list(tbl.clone())); }
     let w = guarded(|| dispatch_perfect_weights(f, b, p, &tbl)).ok().flatten().flatten().unwrap_or_default();
     format!("quant.perfect {} {:x} {:x} {} {}", f, b, p, show_list(tbl), show_list(w))
 }
